@@ -1010,10 +1010,10 @@ def run_unsaved(d):
 
 
 SUBCHECKS = [
-    SubCheck("ranges", run_ranges, strategy=st_ranges, quick=600, thorough=20000, sample_cap=1500,
+    SubCheck("ranges", run_ranges, strategy=st_ranges, quick=450, thorough=16000, sample_cap=1500,
              required_classes=("no_chunk_error", "r0_inside_row", "r1_inside_row", "r0_on_chunk_edge",
                                "r1_on_chunk_edge", "form:seconds_range", "proc:threaded_mailbox", "tsel:touching")),
-    SubCheck("sweep", run_sweep, strategy=st_sweep, quick=96, thorough=1600, min_per_shard=3, sample_cap=1500),
-    SubCheck("multi", run_multi, strategy=st_multi, quick=1000, thorough=16000, sample_cap=1500),
-    SubCheck("unsaved", run_unsaved, strategy=st_unsaved, quick=600, thorough=10000, sample_cap=1500),
+    SubCheck("sweep", run_sweep, strategy=st_sweep, quick=64, thorough=1200, min_per_shard=3, sample_cap=1500),
+    SubCheck("multi", run_multi, strategy=st_multi, quick=800, thorough=14000, sample_cap=1500),
+    SubCheck("unsaved", run_unsaved, strategy=st_unsaved, quick=500, thorough=8000, sample_cap=1500),
 ]
